@@ -49,6 +49,14 @@ def check(tier):
                 if not c02.differential(rep, r['variant'], c02.battery(r['variant']), 'verify:panic', 'panic obligation violable in verify: %s at %s' % (p['msg'], p['site']), need_panic=True):
                     rep.note_inconclusive('violable assertion in verify not reproduced natively: %s at %s' % (p['msg'], p['site']))
         if job[1] == 'decompress_scen':
+            c07.validate_samples(rep, job, r)
+        if job[1] == 'parse_scen' and r['L'] == c06.LEN[r['what']][r['N']]:
+            for smp in r.get('samples', [])[:1]:
+                if smp.get('accepted_input') is not None:
+                    got = replay.call1(['parse', r['what'], r['N'], bytes(smp['accepted_input']).hex()])
+                    if got.startswith('Ok '): rep.replayed += 1
+                    else: rep.note_inconclusive('translator validation failed (%s): the real code answers %s' % (r['tag'], got[:60]))
+        if job[1] == 'decompress_scen':
             for s in r.get('samples', [])[:1]:
                 rep.sample({'scenario': r.get('tag'), 'discharged': 'all %d assert/library-panic obligations on %d paths' % (r['obligations'], r['paths'])})
     # verify never panics on a decode failure or success natively either: a differential battery (cheap, replay only)
